@@ -152,3 +152,16 @@ Example c20_witness_when_all : when_allocs CAll FFirst FIter IUnique VsInt OAllO
                                when_allocs CAny FLast FIter IUnique VsInt OAllOk TLate 1 = (0, 0) /\
                                when_allocs CAny FLast FVariadic IUnique VsInt OAllOk TLate 1 = (2, 2).
 Proof. vm_compute. repeat split. Qed.
+
+(* Payloads that own heap memory (a copy of the value or of the error is one more block for the step that makes it):
+   on plain futures and tasks neither is ever copied — not by a step that is skipped and merely hands a failure on, not
+   when a recovery callback receives the failure (by move since d85ca6f), not by unwrapping, a lazy chain or a rejected
+   submission. *)
+Theorem c20_payload_not_copied : forall p, value_copies p = 0 /\ error_copies p = 0.
+Proof. exact payload_never_copied. Qed.
+Print Assumptions c20_payload_not_copied.
+
+Example c20_witness_error_through_steps :
+  error_copies (PThen (PThen (PReady WF VHeavy RErr) AInline (Fn PValue VHeavy ShPlain BRet)) AInline (Fn PError VHeavy ShPlain BRet)) = 0 /\
+  calls (run (PThen (PThen (PReady WF VHeavy RErr) AInline (Fn PValue VHeavy ShPlain BRet)) AInline (Fn PError VHeavy ShPlain BRet))) = 1.
+Proof. vm_compute. split; reflexivity. Qed.
